@@ -6,7 +6,7 @@
 From Soy Require Import Proofs.SourceTieDirectives Proofs.SourceTieWordBreaks.
 From Soy Require Import Model.Bytes Generated.Tables Model.Utf8 Model.Num Model.Outcome Model.Values Model.Escape Model.Directives Model.JsEscape
   Model.JsonEncode Spec.Html Spec.Codec Spec.Json Proofs.Utf8Proofs Proofs.CodecProofs Proofs.CodecJsPair Proofs.CodecJsonNum Proofs.CodecJson Proofs.CodecJsonInert
-  Model.JsDirectives Spec.JsUnits Proofs.CodecJsUnits Proofs.CodecJsAgree.
+  Model.JsDirectives Spec.JsUnits Proofs.CodecJsUnits Proofs.CodecJsAgree Proofs.CodecJsTie Model.InterpJson Proofs.CodecWalkerJson.
 Open Scope N_scope.
 
 (* ---------------- escapeUri ---------------- *)
@@ -380,3 +380,71 @@ Theorem C16_truncate_go_js_agree_ascii : forall s n e, Forall (fun c => c < 128)
   truncate s n e = Ok (u_truncate s n e).
 Proof. exact truncate_agrees_ascii. Qed.
 Print Assumptions C16_truncate_go_js_agree_ascii.
+
+(* ---------------- the JavaScript helper models are soyutils.js, by translation ---------------- *)
+(* tablegen generator 16-soyutils-js reads the escape maps, the matcher classes, the regex of newLineToBr, the
+   surrogate bounds, WORD_BREAK and the code of $$truncate / insertWordBreaks out of the TEXT of
+   soyjs/lib/soyutils.js (Generated/Tables.v, names jsu_...); Proofs/CodecJsTie.v: jst_replace is
+   str.replace(class, ch => table[ch]) unit by unit, jst_replace_alts is str.replace(/(a|b|c)/g, text). *)
+Theorem C16_js_tie_escape_js_string : forall s, Forall (fun c => c < 65536) s ->
+  jst_replace jsu_js_matcher jsu_js_escape_map s = Some (u_escape_js_string s).
+Proof. exact u_escape_js_string_matches_source. Qed.
+Print Assumptions C16_js_tie_escape_js_string.
+
+Theorem C16_js_tie_escape_html : forall s, Forall (fun c => c < 65536) s ->
+  jst_replace jsu_html_matcher jsu_html_escape_map s = Some (u_escape_html s).
+Proof. exact u_escape_html_matches_source. Qed.
+Print Assumptions C16_js_tie_escape_html.
+
+(* escapeUri: urlEncode is encodeURIComponent (ECMA-262, modelled); the units it leaves alone are then written
+   through soy.$$problematicUriMarks_ / soy.$$pctEncode_ exactly as the model does *)
+Theorem C16_js_tie_escape_uri : jsu_uri_encoder = jst_encodeURIComponent /\ jsu_pct_lower_hex = true
+  /\ forall c, c < 65536 -> uri_unescaped c = true ->
+       u_escape_uri [c] = Ok (jst_uri_mark_piece c) /\ (jst_in_class jsu_uri_marks c = true -> 16 <= c < 256).
+Proof.
+  destruct u_escape_uri_encoder_matches_source as [H1 H2]. split; [exact H1|]. split; [exact H2|].
+  exact u_escape_uri_marks_matches_source.
+Qed.
+Print Assumptions C16_js_tie_escape_uri.
+
+Theorem C16_js_tie_newline_to_br : forall s,
+  u_newline_to_br s = jst_replace_alts jsu_br_alternatives jsu_br_replacement 0 s.
+Proof. exact u_newline_to_br_matches_source. Qed.
+Print Assumptions C16_js_tie_newline_to_br.
+
+Theorem C16_js_tie_surrogates : forall c,
+  u_is_high c = in_range (fst jsu_high_surrogate) (snd jsu_high_surrogate) c
+  /\ u_is_low c = in_range (fst jsu_low_surrogate) (snd jsu_low_surrogate) c.
+Proof. exact u_surrogates_match_source. Qed.
+Print Assumptions C16_js_tie_surrogates.
+
+(* $$truncate and the insertWordBreaks loop: the code is compared as text with what the model was written against *)
+Theorem C16_js_tie_truncate_text : jsu_truncate_src = jst_truncate_text /\ jsu_insert_word_breaks_src = jst_insert_word_breaks_text
+  /\ jsu_word_break = wbr /\ jsu_br_replacement = br.
+Proof.
+  split; [exact u_truncate_source_text|]. split; [exact u_insert_word_breaks_source_text|]. exact u_word_break_matches_source.
+Qed.
+Print Assumptions C16_js_tie_truncate_text.
+
+(* the tables are not empty shells: ' is matched and written as backslash-x27, a is copied *)
+Example C16_js_tie_nonvacuous :
+  jst_replace jsu_js_matcher jsu_js_escape_map [39; 97] = Some [92; 120; 50; 55; 97]
+  /\ jst_replace_alts jsu_br_alternatives jsu_br_replacement 0 [97; 13; 10; 98; 13] = b "a<br>b<br>"
+  /\ jst_in_class jsu_uri_marks 40 = true /\ jst_uri_mark_piece 40 = b "%28".
+Proof. vm_compute. repeat split; reflexivity. Qed.
+
+(* ---------------- the directives inside the walker-level model ---------------- *)
+(* Model/Directives.v apply_fn (base walker) answers OutOfModel for escapeJsString and json; the extended walker
+   walk_xj of Model/InterpJson.v (C06) applies them through hooks.  Its json hook computes exactly json_encode --
+   the encoder of the theorems above -- on values with sorted keys whose floats both float printers write alike,
+   so a {$v|json} rendered through walk_xj parses back to the value. *)
+Theorem C16_walker_json_is_json_encode : forall v args, cwj_sorted v ->
+  dir_json (Some v) args = (s <- json_encode json_nil_null v ;; Ok (Some (VStr s))).
+Proof. exact cwj_dir_json. Qed.
+Print Assumptions C16_walker_json_is_json_encode.
+
+Theorem C16_walker_json_roundtrip : forall v args s, json_ok json_nil_null v -> cwj_floats v ->
+  dir_json (Some v) args = Ok (Some (VStr s)) ->
+  exists j, jv_of_value v = Some j /\ json_parse s = Some j.
+Proof. exact cwj_dir_json_roundtrip. Qed.
+Print Assumptions C16_walker_json_roundtrip.
